@@ -27,6 +27,9 @@ KE = ("exc", "msg", "api", "dim")
 KV = ("api", "what", "dim", "eqsrc", "flat")
 
 
+_BUFFERS = {}
+
+
 def _v(rec, clause, sig, *a, **k):
     rec.violation(clause, sig, *a, keys=(KE if "exc" in sig else KV), **k)
 
@@ -72,6 +75,60 @@ def _clouds(unit):
             yield ("sheet-%d" % asp, d), Y[:, :1] * u + Y[:, 1:] * v + 0.5
 
 
+def _slices(rec, dreye, name, P, d, sig, scale, reuse_buffer):
+    psum = P.sum(1)
+    lo_, hi_ = psum.min(), psum.max()
+    if hi_ - lo_ < 1e-9:
+        return
+    cs = sorted(set([lo_ + f * (hi_ - lo_) for f in (0.25, 0.5, 0.8)] + [s for s in np.unique(psum) if lo_ <= s < hi_]))
+    cs = [c for c in cs if c > 0]
+    # lattice clouds are integer-valued: they are also handed over as integer-typed arrays (np.indices / itertools.product style)
+    if reuse_buffer:
+        # one work array per cloud shape, refilled in place with each new cloud and sliced without any other call in between
+        # (the answer depends on the contents, not on the array object)
+        buf = _BUFFERS.setdefault(P.shape, np.empty(P.shape))
+        buf[:] = P
+        variants = [("reused-buffer", buf)]
+    else:
+        variants = [("float", P)] + ([("int", P.astype(np.int64))] if np.all(P == np.round(P)) else [])
+    for c, (dt, Parg) in itertools.product(cs, variants):
+        rec.path()
+        rec.trans()
+        try:
+            R = np.asarray(dreye.proj_P_to_simplex(Parg, c), dtype=float)
+        except Exception as e:  # noqa
+            _v(rec, "e", dict(sig, api="proj_P_to_simplex", **exc_sig(e)), "proj_P_to_simplex raised %r" % (e,), dict(cloud=name, c=c),
+               script="import numpy as np, dreye\nprint(dreye.proj_P_to_simplex(np.array(%r), %r))\n" % (P.tolist(), c))
+            rec.outcome("slice/exception")
+            continue
+        # oracle: all-pairs segment / plane intersections
+        Opts = [p for p, s in zip(P, psum) if abs(s - c) <= 1e-12]
+        for i, j in itertools.combinations(range(len(P)), 2):
+            si, sj = psum[i], psum[j]
+            if (si - c) * (sj - c) < 0:
+                t = (c - si) / (sj - si)
+                Opts.append(P[i] + t * (P[j] - P[i]))
+        Opts = np.array(Opts)
+        bad = None
+        if R.ndim != 2 or R.shape[1] != d or len(R) == 0 or not np.all(np.isfinite(R)):
+            bad = ("e", "malformed result %s" % (R.shape,))
+        elif np.max(np.abs(R.sum(1) - c)) > 1e-9 * scale:
+            bad = ("e", "returned points do not sum to c")
+        else:
+            if len(np.unique(np.round(Opts, 9), axis=0)) >= 2:
+                rec.distinct((name, c, dt))
+            d1 = max(O.hull_dist(Opts, r) for r in R)
+            d2 = max(O.hull_dist(R, o) for o in Opts)
+            if d1 > 1e-7 * scale:
+                bad = ("f", "a returned point lies outside the intersection of the hull with the plane (distance %.3g)" % d1)
+            elif d2 > 1e-7 * scale:
+                bad = ("f", "the returned points do not span the whole intersection of the hull with the plane (missing part at distance %.3g)" % d2)
+        rec.outcome("slice/%s" % ("ok" if bad is None else "bad"))
+        if bad:
+            _v(rec, bad[0], dict(sig, api="proj_P_to_simplex", what=bad[1][:40]), bad[1] + " (c=%s, %s-typed cloud)" % (c, dt), dict(cloud=name, c=c, dtype=dt), observed=R, expected=Opts,
+               script="import numpy as np, dreye\nprint(dreye.proj_P_to_simplex(np.array(%r), %r))\n" % (Parg.tolist(), c))
+
+
 def run_unit(unit, rec):
     import dreye
     from scipy.spatial import ConvexHull
@@ -101,6 +158,8 @@ def run_unit(unit, rec):
         if not flat:
             N, off = hr
             eq_sources = [("own", np.hstack([N, off[:, None]]))]
+            # the same half-spaces with every row multiplied by its own positive factor (hand-written facets such as 2x - 3 <= 0)
+            eq_sources.append(("own-scaled-rows", np.hstack([N, off[:, None]]) * (0.5 + (np.arange(len(off)) % 4))[:, None]))
             try:
                 eq_sources.append(("qhull", ConvexHull(P).equations))
             except Exception:  # noqa
@@ -157,48 +216,8 @@ def run_unit(unit, rec):
                                 _v(rec, "d", dict(sig, api="alpha_for_B_with_P", what="incidence", eqsrc=src), "alpha=%r: the multiple is not the positive multiple on the hull boundary (max facet value %.3g)" % (a, val),
                                    dict(cloud=name, eq=src, dir=j), observed=dict(alpha=a, B_with_P=Bw[j]), expected=dict(P=P - centre, b=b))
         # ---- slice with the plane sum = c
-        psum = P.sum(1)
-        lo_, hi_ = psum.min(), psum.max()
-        if hi_ - lo_ < 1e-9:
-            continue
-        cs = sorted(set([lo_ + f * (hi_ - lo_) for f in (0.25, 0.5, 0.8)] + [s for s in np.unique(psum) if lo_ <= s < hi_]))
-        cs = [c for c in cs if c > 0]
-        # lattice clouds are integer-valued: they are also handed over as integer-typed arrays (np.indices / itertools.product style)
-        variants = [("float", P)] + ([("int", P.astype(np.int64))] if np.all(P == np.round(P)) else [])
-        for c, (dt, Parg) in itertools.product(cs, variants):
-            rec.path()
-            rec.trans()
-            try:
-                R = np.asarray(dreye.proj_P_to_simplex(Parg, c), dtype=float)
-            except Exception as e:  # noqa
-                _v(rec, "e", dict(sig, api="proj_P_to_simplex", **exc_sig(e)), "proj_P_to_simplex raised %r" % (e,), dict(cloud=name, c=c),
-                   script="import numpy as np, dreye\nprint(dreye.proj_P_to_simplex(np.array(%r), %r))\n" % (P.tolist(), c))
-                rec.outcome("slice/exception")
-                continue
-            # oracle: all-pairs segment / plane intersections
-            Opts = [p for p, s in zip(P, psum) if abs(s - c) <= 1e-12]
-            for i, j in itertools.combinations(range(len(P)), 2):
-                si, sj = psum[i], psum[j]
-                if (si - c) * (sj - c) < 0:
-                    t = (c - si) / (sj - si)
-                    Opts.append(P[i] + t * (P[j] - P[i]))
-            Opts = np.array(Opts)
-            bad = None
-            if R.ndim != 2 or R.shape[1] != d or len(R) == 0 or not np.all(np.isfinite(R)):
-                bad = ("e", "malformed result %s" % (R.shape,))
-            elif np.max(np.abs(R.sum(1) - c)) > 1e-9 * scale:
-                bad = ("e", "returned points do not sum to c")
-            else:
-                if len(np.unique(np.round(Opts, 9), axis=0)) >= 2:
-                    rec.distinct((name, c, dt))
-                d1 = max(O.hull_dist(Opts, r) for r in R)
-                d2 = max(O.hull_dist(R, o) for o in Opts)
-                if d1 > 1e-7 * scale:
-                    bad = ("f", "a returned point lies outside the intersection of the hull with the plane (distance %.3g)" % d1)
-                elif d2 > 1e-7 * scale:
-                    bad = ("f", "the returned points do not span the whole intersection of the hull with the plane (missing part at distance %.3g)" % d2)
-            rec.outcome("slice/%s" % ("ok" if bad is None else "bad"))
-            if bad:
-                _v(rec, bad[0], dict(sig, api="proj_P_to_simplex", what=bad[1][:40]), bad[1] + " (c=%s, %s-typed cloud)" % (c, dt), dict(cloud=name, c=c, dtype=dt), observed=R, expected=Opts,
-                   script="import numpy as np, dreye\nprint(dreye.proj_P_to_simplex(np.array(%r), %r))\n" % (Parg.tolist(), c))
+        _slices(rec, dreye, name, P, d, sig, scale, False)
+    # second pass over the same clouds: every cloud copied into ONE work array per shape
+    for name, P in _clouds(unit):
+        _slices(rec, dreye, name, P, d, dict(dim=d, flat=O.hull_hrep(P) is None), max(1.0, float(np.max(np.abs(P)))), True)
     rec.sample(dict(dim=d, size=unit["size"], clouds=ncl, queries=len(queries), directions=len(dirs)), cap=1)
